@@ -6,8 +6,8 @@ NEEDS_LEXER = False
 FUNCS = ["cfg_getopt_secidx", "parse_title", "cfg_opt_gettsecidx", "cfg_opt_getnsec", "cfg_getopt_leaf", "cfg_getopt", "cfg_getsec", "cfg_rmsec", "cfg_opt_rmnsec", "cfg_setint"]
 
 # N name byte, Q unquoted qualifier byte, q quoted byte, e escaped byte (' or \), x byte after a bad backslash
-SHAPES_OPT = ["N", "N|N", "N=Q|N", "N='q'|N", "N='e'|N", "N|N|N", "|N", "N|", "N||N", "=", "N=", "N=|N", "=N", "N='q|N", "N='\\\\x'|N", "N='q'N", "N=Q", "N=QQ|N", "N='\\\\e'|N", "N='qq'|N"]
-SHAPES_SEC = ["N", "N=Q", "N='q'", "N|", "N|=", "N=", "N='q", "N=QQ", "N|N", "|N", "N='\\\\e'", "N='q'N"]
+SHAPES_OPT = ["N", "N|N", "N=Q|N", "N='q'|N", "N='e'|N", "N|N|N", "|N", "N|", "N||N", "=", "N=", "N=|N", "=N", "N='q|N", "N='\\\\x'|N", "N='q'N", "N=Q", "N=QQ|N", "N='\\\\e'|N", "N='qq'|N", "N|N=Q|N", "N|N=|N"]
+SHAPES_SEC = ["N", "N=Q", "N='q'", "N|", "N|=", "N=", "N='q", "N=QQ", "N|N", "|N", "N='\\\\e'", "N='q'N", "N|N=Q", "N|N=", "N=Q|N=Q", "N|N='q"]
 
 
 def ckey(s):
